@@ -371,7 +371,7 @@ fn main() {
             "tokens",
             total,
             &format!(
-                "every sequence of <= L tokens over the {nt}-token alphabet (12 delimiter spellings of the set in force, 30 keywords, 30 operators, 8 literals, 4 identifiers, 6 text pieces), joined with \"\" and with \" \", L per delimiter set: {}",
+                "every sequence of <= L tokens over the {nt}-token alphabet (12 delimiter spellings of the set in force, 30 keywords, 30 operators, 8 literals, 4 identifiers, 8 text pieces), joined with \"\" and with \" \", L per delimiter set: {}",
                 depth_words(&parts, &ds)
             ),
         )
